@@ -1,0 +1,86 @@
+package value
+
+import (
+	"math"
+	"math/big"
+)
+
+// Result of the exact comparison helpers when the float operand is NaN.
+const cmpUnordered = 2
+
+// CompareInt64WithFloat64 compares the integer i with the float f exactly
+// (without rounding i to a float). Returns -1 if i < f, 0 if i == f, 1 if i > f
+// and cmpUnordered if f is NaN.
+func CompareInt64WithFloat64(i int64, f float64) int {
+	if math.IsNaN(f) {
+		return cmpUnordered
+	}
+	if f >= 0x1p63 { // also +Inf
+		return -1
+	}
+	if f < -0x1p63 { // also -Inf
+		return 1
+	}
+	t := int64(f) // truncation toward zero, cannot overflow here
+	if i < t {
+		return -1
+	}
+	if i > t {
+		return 1
+	}
+	ft := float64(t) // exact: t is the integral part of a float64
+	if ft < f {
+		return -1
+	}
+	if ft > f {
+		return 1
+	}
+	return 0
+}
+
+// CompareUint64WithFloat64 compares the unsigned integer u with the float f exactly
+// (without rounding u to a float). Returns -1 if u < f, 0 if u == f, 1 if u > f
+// and cmpUnordered if f is NaN.
+func CompareUint64WithFloat64(u uint64, f float64) int {
+	if math.IsNaN(f) {
+		return cmpUnordered
+	}
+	if f >= 0x1p64 { // also +Inf
+		return -1
+	}
+	if f < 0 { // also -Inf; -0.0 < 0 is false, so -0.0 falls through
+		return 1
+	}
+	t := uint64(f) // truncation toward zero, cannot overflow here
+	if u < t {
+		return -1
+	}
+	if u > t {
+		return 1
+	}
+	ft := float64(t) // exact: t is the integral part of a float64
+	if ft < f {
+		return -1
+	}
+	if ft > f {
+		return 1
+	}
+	return 0
+}
+
+// CompareBigIntWithFloat64 compares the arbitrary precision integer i with the float f exactly
+// (without rounding i to a float). Returns -1 if i < f, 0 if i == f, 1 if i > f
+// and cmpUnordered if f is NaN.
+func CompareBigIntWithFloat64(i *big.Int, f float64) int {
+	if math.IsNaN(f) {
+		return cmpUnordered
+	}
+	if math.IsInf(f, 1) {
+		return -1
+	}
+	if math.IsInf(f, -1) {
+		return 1
+	}
+	iFloat := new(big.Float).SetInt(i) // exact: precision = max(i.BitLen(), 64)
+	return iFloat.Cmp(big.NewFloat(f)) // big.Float.Cmp is exact
+}
